@@ -279,6 +279,7 @@ impl Subscriber for SubscriberService {
         let messages_fut = async {
             loop {
                 let signal = subscription.messages_available();
+                let deleted = subscription.deleted();
                 #[cfg(deltio_verif)]
                 crate::verif::point("pull.subscribed").await;
                 let received_messages =
@@ -302,9 +303,13 @@ impl Subscriber for SubscriberService {
                 }
 
                 // Otherwise, wait for messages to be available.
+                // If the subscription is deleted while we wait, return a not found.
                 #[cfg(deltio_verif)]
                 crate::verif::point("pull.wait").await;
-                signal.await;
+                tokio::select! {
+                    _ = signal => {},
+                    _ = deleted => return Err(subscription_not_found(&subscription_name)),
+                }
             }
         };
 
@@ -364,7 +369,7 @@ impl Subscriber for SubscriberService {
 
                     // Then, pull the available messages from the subscription.
                     let pulled = match subscription.pull_messages(max_count).await {
-                        Err(PullMessagesError::Closed) => return,
+                        Err(PullMessagesError::Closed) => break,
                         Ok(pulled) => pulled,
                     };
 
